@@ -252,3 +252,63 @@ theorem X_fit_select_rows (s : Sel K) (nd : Nat) (x : FitRows K) (hwf : WFRows x
   exact ⟨m, hm, by rw [h2, hid], hsome, by rw [h1, hrow]⟩
 
 end SF
+
+namespace SF
+variable {K : Type} [Field K] [LinearOrder K] [IsStrictOrderedRing K]
+
+/-- **fit → rank → threshold selector, by model.** For the package as assembled (any model order) and a
+    threshold selector whose threshold no criterion value equals: model `m` of the package is among the
+    kept fits (its index is in the kept `model_id` column) **iff** its own criterion value, relative to
+    the package's best chi² `c0`, is below the threshold.  So which models survive does not depend on
+    where they sit in the package, and ties / `+inf` / NaN cannot make the ranking drop a passing model
+    or keep a failing one. -/
+theorem X_fit_select_models (s : Sel K) (v : EF K) (hs : s.thr = some v) (nd : Nat) (x : FitRows K)
+    (hwf : WFRows x) (hna : NonAttained s nd (sortRows x).chi2)
+    (c0 : EF K) (hc0 : (sortRows x).chi2.head? = some c0) (m : Nat) (hm : m < x.chi2.length) :
+    m ∈ (keep s nd (sortRows x)).modelId ↔ EF.lt (crit s nd c0 x.chi2[m]) v = true := by
+  have hth := C05_threshold s v hs nd (sortRows x) (X_sort_wf x hwf) (X_sort_ranked x) hna
+  obtain ⟨hle, hcut, _, hiff, _⟩ := hth
+  have hiff := hiff c0 hc0
+  have hylen : (sortRows x).chi2.length = x.chi2.length := by
+    simp [sortRows, fancyIndex_length, argsortEF_length]
+  have hid : (keep s nd (sortRows x)).modelId = (argsortEF x.chi2).take (nFits s nd (sortRows x).chi2) := hcut.2.2.2.2.1
+  have hol := argsortEF_length x.chi2
+  -- the chi² at ranked position `i` is the chi² of model `order[i]`
+  have hchi : ∀ i (hi : i < x.chi2.length) (k : Nat), (argsortEF x.chi2)[i]? = some k →
+      ∃ hk : k < x.chi2.length, (sortRows x).chi2[i]'(by rw [hylen]; exact hi) = x.chi2[k] := by
+    intro i hi k hk
+    have hkl : k < x.chi2.length := argsortEF_lt x.chi2 (List.mem_of_getElem? hk)
+    refine ⟨hkl, ?_⟩
+    have h1 : (sortRows x).chi2[i]? = x.chi2[k]? := fancyIndex_getElem? EF.nan _ x.chi2 i k hk hkl
+    have h2 : (sortRows x).chi2[i]? = some ((sortRows x).chi2[i]'(by rw [hylen]; exact hi)) :=
+      List.getElem?_eq_getElem _
+    rw [h2, List.getElem?_eq_getElem hkl] at h1
+    exact Option.some.inj h1
+  rw [hid]
+  constructor
+  · intro hmem
+    obtain ⟨i, hi, hget⟩ := List.mem_iff_getElem.mp hmem
+    have hin : i < nFits s nd (sortRows x).chi2 := by
+      have := hi; simp only [List.length_take] at this; omega
+    have hil : i < x.chi2.length := by rw [← hylen]; omega
+    have hk : (argsortEF x.chi2)[i]? = some m := by
+      rw [List.getElem_take] at hget
+      rw [← hget]; exact List.getElem?_eq_getElem _
+    obtain ⟨_, he⟩ := hchi i hil m hk
+    have := (hiff i (by rw [hylen]; exact hil)).mp hin
+    rw [he] at this
+    exact this
+  · intro hlt
+    have hmo : m ∈ argsortEF x.chi2 := (argsortEF_perm x.chi2).mem_iff.mpr (List.mem_range.mpr hm)
+    obtain ⟨i, hi, hget⟩ := List.mem_iff_getElem.mp hmo
+    have hil : i < x.chi2.length := by rw [← hol]; exact hi
+    have hk : (argsortEF x.chi2)[i]? = some m := by rw [← hget]; exact List.getElem?_eq_getElem _
+    obtain ⟨_, he⟩ := hchi i hil m hk
+    have hin : i < nFits s nd (sortRows x).chi2 := by
+      apply (hiff i (by rw [hylen]; exact hil)).mpr
+      rw [he]; exact hlt
+    apply List.mem_iff_getElem.mpr
+    refine ⟨i, by simp only [List.length_take]; omega, ?_⟩
+    rw [List.getElem_take]; exact hget
+
+end SF
